@@ -257,7 +257,8 @@ def native_batchify(n, b, aff_none=False):
         nb += 1
         ok = ok and 1 <= len(ids) <= (b or n)
         if A is not None:
-            ok = ok and Ab.shape == (len(ids), len(ids)) and all(Ab[a, c] == ids[a] * 1000 + ids[c] for a in range(len(ids)) for c in range(len(ids)))
+            want = np.asarray(ids)[:, None] * 1000.0 + np.asarray(ids)[None, :]
+            ok = ok and Ab.shape == (len(ids), len(ids)) and bool(np.array_equal(Ab, want))
         else:
             ok = ok and Ab is None
         seen += ids
@@ -352,6 +353,8 @@ def vc_obligations():
                       fn="gemclus._base_gemini.DiscriminativeModel._batchify"))
     if any(o.status != PROVED for o in obs):
         grid = [(n, b, an) for n in range(1, 13) for b in [None] + list(range(1, 15)) for an in (False, True)]
+        # larger sizes: short remainders of large batches, batch counts that do not divide n, sizes beyond typical block lengths
+        grid += [(n, b, False) for n in (41, 83, 90, 103, 130, 150, 257, 300, 1030) for b in (7, 20, 25, 40, 50, 64, 128, 256, 299, 512) if b <= n + 1]
         obs += _bounded_fallback("_batchify", "gemclus._base_gemini.DiscriminativeModel._batchify", native_batchify, grid)
     n0 = len(obs)
     try:
